@@ -35,8 +35,10 @@ Definition with_break (e : env) (k : nat) : env :=
 Definition with_loop (e : env) (c b : nat) : env :=
   mkEnv (e_break e) (Some c) (Some b) (e_labels e) (e_perf e).
 
-(* node 0 is the stop node of every graph built here *)
+(* node 0 is the stop node of every graph built here; node 1 is the implicit return performed when
+   a routine runs off its end ("stops the routine like return") *)
 Definition STOP : nat := 0.
+Definition FALL : nat := 1.
 
 Definition need {A} (o : option A) (msg : string) : M A :=
   match o with Some a => ret a | None => fail msg end.
@@ -266,7 +268,7 @@ Fixpoint tr_routines (e : env) (rs : list routine_def) (expect_id : Z) : M (list
       dom entry <- (match r_body r with
                     | SNil => ret None
                     | b => if r_alias r then fail "alias with statements"
-                           else dom en <- tr_stmts e b STOP; ret (Some en)
+                           else dom en <- tr_stmts e b FALL; ret (Some en)
                     end);
       dom others <- tr_routines e rest (expect_id + 1)%Z;
       ret (entry :: others)
@@ -276,8 +278,8 @@ Fixpoint tr_routines (e : env) (rs : list routine_def) (expect_id : Z) : M (list
 Definition cfg_of_prog (perf : string) (p : prog) : result (cfg * list (option nat)) :=
   let labels := concat (map (fun r => labels_stmts (r_body r)) (p_routines p)) in
   if has_dup labels then Err "label defined twice" else
-  let table := number_from 1 labels in
-  let init := NStop :: map (fun _ => NStuck) labels in
+  let table := number_from 2 labels in
+  let init := NStop :: implicit_return STOP :: map (fun _ => NStuck) labels in
   let e := mkEnv None None None table perf in
   match tr_routines e (p_routines p) 0%Z init with
   | Ok (entries, g) => Ok (g, entries)
